@@ -6,7 +6,7 @@ seeded/*/meta.json `detected_by`.   usage: tools/selftest.py [--all-properties] 
 import os, sys, json, subprocess, shutil, re, glob
 V = os.path.dirname(os.path.dirname(os.path.abspath(__file__)))
 S = "/tmp/tv-selftest"
-DEFECTS = {"D1": "C01", "D2": "C02", "D3": "C03", "D4": "C12", "D5": "C13", "D7": "C06", "D8": "C06", "D9": "C08", "D11": "C09", "D13": "C07", "D14": "C07", "D17": "C01", "D18": "C05", "D19": "C02", "D20": "C02", "D21": "C12", "D22": "C12", "D23": "C16", "D24": "C16", "D25": "C13", "D26": "C13", "D27": "C13", "D28": "C15", "D29": "C20", "D30": "C20", "D31": "C04", "D34": "C19", "D35": "C17", "D37": "C18", "D38": "C18", "D39": "C10", "D40": "C10", "D42": "C02", "D44": "C18", "D45": "C18", "D46": "C18", "D47": "C06", "D48": "C06", "D49": "C06", "D50": "C16", "D52": "C19", "D53": "C12", "D54": "C09", "D55": "C17", "D57": "C10", "D58": "C10", "D59": "C10", "D60": "C04"}
+DEFECTS = {"D1": "C01", "D2": "C02", "D3": "C03", "D4": "C12", "D5": "C13", "D7": "C06", "D8": "C06", "D9": "C08", "D11": "C09", "D13": "C07", "D14": "C07", "D17": "C01", "D18": "C05", "D19": "C02", "D20": "C02", "D21": "C12", "D22": "C12", "D23": "C16", "D24": "C16", "D25": "C13", "D26": "C13", "D27": "C13", "D28": "C15", "D29": "C20", "D30": "C20", "D31": "C04", "D34": "C19", "D35": "C17", "D37": "C18", "D38": "C18", "D39": "C10", "D40": "C10", "D42": "C02", "D44": "C18", "D45": "C18", "D46": "C18", "D47": "C06", "D48": "C06", "D49": "C06", "D50": "C16", "D52": "C19", "D53": "C12", "D54": "C09", "D55": "C17", "D57": "C10", "D58": "C10", "D59": "C10", "D60": "C04", "D61": "C14", "D63": "C15", "D65": "C05"}
 allp = "--all-properties" in sys.argv
 ids = [a for a in sys.argv[1:] if not a.startswith("--")]
 items = []
